@@ -559,6 +559,11 @@ def from_multi_index_to_3d_numpy(X, instance_index=None, time_index=None):
 
     n_columns = X.shape[1]
 
+    # the reshape reads one block of rows per instance: bring each instance's rows
+    # together (instances in order of first appearance, rows in the order given)
+    instance_codes = pd.factorize(X.index.get_level_values(instance_index))[0]
+    X = X.iloc[np.argsort(instance_codes, kind="stable")]
+
     X_3d = X.values.reshape(n_instances, n_timepoints, n_columns).swapaxes(1, 2)
 
     return X_3d
